@@ -210,7 +210,7 @@ async def run(ctx):
     rng = ctx.rng
     E.install()
     pools = G.Pools(rc=["1", "2", "3", "4"], hint=["501", "502"], fc=["901", "902", "903"])
-    for i in range(ctx.budget(450, 45_000)):
+    for i in range(ctx.budget(1200, 60_000)):
         asg = {k: rng.choice("FUK") for k in E.RC_KEYS}
         r = rng.random()
         if r < 0.3:
@@ -235,10 +235,10 @@ async def run(ctx):
         await check_tree(ctx, case)
         if i % 120 == 0:
             ctx.sample({"s": case["s"], "kind": case["kind"]}, cls="tree")
-    for i in range(ctx.budget(400, 40_000)):
+    for i in range(ctx.budget(1200, 60_000)):
         check_inputs(ctx, rng)
     ctx.sample({"cer": repr(random_cer(rng))[:400]}, cls="cer")
-    for i in range(ctx.budget(150, 15_000)):
+    for i in range(ctx.budget(450, 20_000)):
         toks = G.gen_tokens(rng, max_items=rng.randint(1, 5), depth=1, atom=atom_c19)
         await check_extract(ctx, G.join_tokens(toks, rng), rng.random() < 0.5, rng.random() < 0.5)
 
